@@ -145,7 +145,6 @@ def make_body(job):
         if m.service_endpoint in eps:
           node = [n for n in s._heap[1:] if n.endpoint == m.service_endpoint][0]
           check('join.fresh-node-idle', node.load == Idle)
-          check('join.opened', node.channel.opens == 1)
       else:
         cover('join-duplicate')
         m = c.members[0] if kind == 'dup-active' else c.members[na]
